@@ -712,6 +712,12 @@ func (e *SEnv) evalCall(n *SCall) Val {
 			return specInt(Fresh("nevercalled", SInt))
 		}
 		return rec.rets[ri]
+	case "ipay": // identity of the object held by an interface value (its payload reference)
+		a := e.eval(n.Args[0])
+		if a.T == nil || !isIface(a.T) {
+			sfail("ipay needs an interface value")
+		}
+		return specInt(a.C[1])
 	case "refid": // identity (reference) of a pointer, channel, map or slice value
 		a := e.eval(n.Args[0])
 		if a.T == nil || len(a.C) == 0 {
